@@ -55,6 +55,33 @@ METHOD_MODELS: dict[str, Callable] = {
 NP_NAMESPACE = {"__namespace__": True, "newaxis": None, **{t: t for t in ("int8", "int16", "int32", "int64", "uint8", "bool_", "float32", "float64", "intp")}}
 
 
+def make_name_hook(index, module, hooks_of):
+    """free-name resolution for an interpreted fragment of `module`: its functions (closures), its module-level constants (folded from their
+    defining expressions, once), names it imports from other modules of the package, and `np`.  `hooks_of()` gives the hooks the nested
+    evaluations run with (so that a rule's call models apply inside helpers too)"""
+    consts: dict = {}
+
+    def name_hook(name, env, _mod=None):
+        mod = _mod or module
+        if name in ("np", "numpy"):
+            return NP_NAMESPACE
+        if name in mod.functions:
+            return Closure(mod.functions[name].node, {})
+        if name in mod.assigns:
+            key = (mod.name, name)
+            if key not in consts:
+                consts[key] = Evaluator({**hooks_of(), "__name__": lambda n_, e_, m_=mod: name_hook(n_, e_, m_)}).ev(mod.assigns[name], {})
+            return consts[key]
+        tgt = mod.imports.get(name)
+        if tgt and "." in tgt:
+            src, _, leaf = tgt.rpartition(".")
+            m2 = index.modules.get(src)
+            if m2 is not None and m2 is not mod:
+                return name_hook(leaf, env, m2)
+        raise Unknown(f"free name `{name}`")
+    return name_hook
+
+
 class AbstractClass:
     def __init__(self, index, cls_q: str, extra_calls: dict[str, Callable] | None = None, len_of: Callable[[Obj], int] | None = None,
                  getitem_of: Callable[[Obj, Any], Any] | None = None, max_steps: int = 2_000_000) -> None:
